@@ -26,6 +26,7 @@ import Kust.FmtSchema
 import Kust.Match
 import Kust.ReplTree
 import Kust.PathDisk
+import Kust.Kv
 import Kust.Gen.Lists
 import Kust.Gen.FieldSpecs
 import Kust.Gen.Lists
@@ -604,6 +605,18 @@ def runMatch (op : String) (a : Json) : Except String Json := do
       (Match.pathMatch (MatchJ.hit ns) ns create path doc)
   | _ => throw s!"unknown match op {op}"
 
+def runGenSources (a : Json) : Except String Json := do
+  let envok := predOfJson (a.getObjValD "envok")
+  let keyok := predOfJson (a.getObjValD "keyok")
+  let cj := a.getObjValD "content"
+  let content : String → Option String := fun p => match cj.getObjVal? p with
+    | .ok (Json.str c) => some c
+    | _ => none
+  let envs := (jStrs (a.getObjValD "envs")).map some
+  let r := Kv.validated envok keyok content envs (jStrs (a.getObjValD "literals")) (jStrs (a.getObjValD "files"))
+  return outToJson (fun (m : List Kv.Pair) =>
+    Json.arr ((GenMap.sortDict m).map fun (k, v) => Json.arr #[Json.str k, Json.str v]).toArray) r
+
 def runPathDisk (a : Json) : Except String Json := do
   let fs : PathDisk.Fs := (jArr (a.getObjValD "fs")).filterMap fun e => match jStrs e with
     | [p, "dir", _] => some (Path.compsOf p, PathDisk.Ent.dir)
@@ -645,6 +658,7 @@ def dispatch (comp : String) (args : Json) : Except String Json :=
   | ["fmt", "nonstring"] => runFmtSchema args
   | ["fmt", op] => runFmt op args
   | ["walk", op] => runWalk op args
+  | ["gen", "sources"] => runGenSources args
   | ["gen", op] => runGen op args
   | ["labels", op] => runLabels op args
   | ["image", op] => runImage op args
